@@ -15,6 +15,9 @@ P = {
  "C13": ("Every operation history up to depth 4 (thorough 5) over {place v, rest v, +, remove-last} for a 10-value sub-vocabulary in 6-14 meters, every single-value fill to exact capacity, constructed overflows by 1-5 vocabulary quanta, and seeded random 60-step histories over all seven operations are executed on a real Bar and compared after every step with an exact Fraction model; meter acceptance is enumerated over integer/float/non-finite units.",
          "Model in vlib/ref/barmodel.py; values handed over as ints or correctly rounded floats of the vocabulary rationals; float clauses at 1e-9.",
          "bounded-exhaustive history enumeration + model-based Hypothesis histories vs exact-rational model"),
+ "C12": ("Every history up to depth 4 (thorough 5) over a 12-operation add/remove alphabet and seeded random 50-step histories over all add/remove forms are replayed on a real NoteContainer and compared after every step with a set model (content order, length, membership, equality, unique names, four consonance predicates); all chord-shorthand x root, interval-shorthand and numeral x key constructors are enumerated for the octave-4 ascending voicing.",
+         "Set model and pitch arithmetic in the check; chord/progression note lists taken from mingus (their content is C06/C08's subject).",
+         "bounded-exhaustive history enumeration + model-based Hypothesis histories vs set model"),
 }
 DEFAULT_NOTE = "Oracle = independent reference model under /verif/vlib/ref; bounds per DESIGN.md section 4."
 
